@@ -217,8 +217,8 @@ def check_state(scn, st, corrupt=False, result=None):
 
 
 def canaries():
-    from ..explore import Chooser
-    st = b_tree(Chooser((1,)))
+    from ..explore import PresetChooser
+    st = b_tree(PresetChooser({'depth': 1}))
     return [('c09-baseline', check_state('tree', st)['ok']),
             ('c09-container-instead-of-filler-detected', not check_state('tree', st, corrupt=True)['ok'])]
 
